@@ -260,3 +260,20 @@ Definition invb (s : vst) : bool :=
   forallbi (voice_okb s) 0 (voices s) && forallbi (chan_okb s) 0 (vmap s) &&
   (used s =? count_used (voices s)) && (0 <=? used s) && (used s <=? maxvoc s) &&
   (zlen (vcount s) =? vchans s) && (0 <=? ntracks s) && (ntracks s <=? vchans s).
+
+(* ---- the mode clause and the argument conditions of the preservation theorem (Proofs/VoicesInv.v), executable ---- *)
+Definition virtb (s : vst) : bool := maxvoc s <=? vchans s - ntracks s.
+Definition quietb (s : vst) : bool := forallb (fun v => v_act v =? 0) (voices s).
+Definition modeb (s : vst) : bool := virtb s || quietb s.
+
+(* what the callers of virtual.c guarantee: resetvoice on a voice in use (or an index the range check refuses); setpatch/queuepatch
+   on a track channel (or an index the range check refuses); new-note actions only with virtual channels *)
+Definition op_okb (s : vst) (o : vop) : bool :=
+  match o with
+  | OReset | OResetChannel _ | OSetVol _ _ | OPastNote _ _ => true
+  | OResetVoice voc => uge voc (maxvoc s) || match getv s voc with Some v => in_use v | None => false end
+  | OSetNna _ nna => virtb s || (nna =? 0)
+  | OSetPatch chn _ _ _ nna _ _ => uge chn (vchans s) || ((0 <=? chn) && (chn <? ntracks s) && (virtb s || (nna =? 0)))
+  | OQueuePatch chn _ _ => uge chn (vchans s) || ((0 <=? chn) && (chn <? ntracks s))
+  end.
+
